@@ -724,3 +724,169 @@ pub fn oracle_c10(toks: &[&str]) -> String {
     }
     "PASS".into()
 }
+
+// ------------------------------------------------------------------ C03: write . parse round trips
+fn write_to_vec(f: impl FnOnce(&mut flussab::DeferredWriter)) -> Vec<u8> {
+    let out = Rc::new(RefCell::new(Vec::<u8>::new()));
+    struct Sink(Rc<RefCell<Vec<u8>>>);
+    impl std::io::Write for Sink {
+        fn write(&mut self, b: &[u8]) -> std::io::Result<usize> { self.0.borrow_mut().extend_from_slice(b); Ok(b.len()) }
+        fn flush(&mut self) -> std::io::Result<()> { Ok(()) }
+    }
+    {
+        let mut w = flussab::DeferredWriter::from_write(Sink(out.clone()));
+        f(&mut w);
+        use std::io::Write;
+        w.flush().unwrap();
+    }
+    let v = out.borrow().clone();
+    v
+}
+
+fn rt_dimacs<L: flussab_cnf::Dimacs + std::fmt::Debug>(kind: &str, data: &[u8], ignore_header: bool) -> Result<Option<(String, Vec<u8>)>, String> {
+    use flussab_cnf::{cnf, gcnf, wcnf};
+    // returns Ok(None) if the text is not accepted, else (canonical value, written bytes)
+    let mut items: Vec<String> = vec![];
+    let mut out: Vec<u8> = vec![];
+    match kind {
+        "cnf" => {
+            let mut p = match cnf::Parser::<L>::from_read(data, cnf::Config::default().ignore_header(ignore_header)) { Ok(p) => p, Err(_) => return Ok(None) };
+            let h = p.header();
+            let mut clauses: Vec<Vec<L>> = vec![];
+            loop { match p.next_clause() { Ok(Some(c)) => clauses.push(c.to_vec()), Ok(None) => break, Err(_) => return Ok(None) } }
+            items.push(format!("{:?}", h.map(|h| (h.var_count, h.clause_count))));
+            for c in &clauses { items.push(lits(&c.iter().map(|l| l.dimacs()).collect::<Vec<_>>())); }
+            out = write_to_vec(|w| { if let Some(h) = h { cnf::write_header(w, h); } for c in &clauses { cnf::write_clause(w, c); } });
+        }
+        "wcnf" => {
+            let mut p = match wcnf::Parser::<L>::from_read(data, wcnf::Config::default().ignore_header(ignore_header)) { Ok(p) => p, Err(_) => return Ok(None) };
+            let h = p.header();
+            let mut clauses: Vec<(u64, Vec<L>)> = vec![];
+            loop { match p.next_clause() { Ok(Some((w, c))) => clauses.push((w, c.to_vec())), Ok(None) => break, Err(_) => return Ok(None) } }
+            items.push(format!("{:?}", h.map(|h| (h.var_count, h.clause_count, h.top_weight))));
+            for (w, c) in &clauses { items.push(format!("{}:{}", w, lits(&c.iter().map(|l| l.dimacs()).collect::<Vec<_>>()))); }
+            out = write_to_vec(|w| { if let Some(h) = h { wcnf::write_header(w, h); } for (wt, c) in &clauses { wcnf::write_clause(w, *wt, c); } });
+        }
+        "gcnf" => {
+            let mut p = match gcnf::Parser::<L>::from_read(data, gcnf::Config::default().ignore_header(ignore_header)) { Ok(p) => p, Err(_) => return Ok(None) };
+            let h = p.header();
+            let mut clauses: Vec<(usize, Vec<L>)> = vec![];
+            loop { match p.next_clause() { Ok(Some((g, c))) => clauses.push((g, c.to_vec())), Ok(None) => break, Err(_) => return Ok(None) } }
+            items.push(format!("{:?}", h.map(|h| (h.var_count, h.clause_count, h.group_count))));
+            for (g, c) in &clauses { items.push(format!("{{{}}}{}", g, lits(&c.iter().map(|l| l.dimacs()).collect::<Vec<_>>()))); }
+            out = write_to_vec(|w| { if let Some(h) = h { gcnf::write_header(w, h); } for (g, c) in &clauses { gcnf::write_clause(w, *g, c); } });
+        }
+        _ => return Err("bad kind".into()),
+    }
+    Ok(Some((items.join(";"), out)))
+}
+
+fn rt_aag<L: flussab_aiger::Lit>(data: &[u8]) -> Result<Option<(String, Vec<u8>)>, String> {
+    use flussab_aiger::ascii;
+    let p = match ascii::Parser::<L>::from_read(data, ascii::Config::default()) { Ok(p) => p, Err(_) => return Ok(None) };
+    let a = match p.parse() { Ok(a) => a, Err(_) => return Ok(None) };
+    let out = write_to_vec(|w| { ascii::Writer::<L>::new(w).write_aig(&a); });
+    Ok(Some((show_aig(&a), out)))
+}
+fn rt_aig<L: flussab_aiger::Lit>(data: &[u8]) -> Result<Option<(String, Vec<u8>)>, String> {
+    use flussab_aiger::binary;
+    let p = match binary::Parser::<L>::from_read(data, binary::Config::default()) { Ok(p) => p, Err(_) => return Ok(None) };
+    let a = match p.parse() { Ok(a) => a, Err(_) => return Ok(None) };
+    let out = Rc::new(RefCell::new(Vec::<u8>::new()));
+    struct Sink(Rc<RefCell<Vec<u8>>>);
+    impl std::io::Write for Sink {
+        fn write(&mut self, b: &[u8]) -> std::io::Result<usize> { self.0.borrow_mut().extend_from_slice(b); Ok(b.len()) }
+        fn flush(&mut self) -> std::io::Result<()> { Ok(()) }
+    }
+    {
+        let w = flussab::DeferredWriter::from_write(Sink(out.clone()));
+        let mut bw = binary::Writer::<L>::new(w);
+        bw.write_ordered_aig(&a);
+        use std::io::Write;
+        bw.writer.flush().unwrap();
+    }
+    let v = out.borrow().clone();
+    Ok(Some((show_ordered_aig(&a), v)))
+}
+fn rt_btor2(data: &[u8]) -> Result<Option<(String, Vec<u8>)>, String> {
+    let mut p = match flussab_btor2::Parser::from_read(data, flussab_btor2::Config::default()) { Ok(p) => p, Err(_) => return Ok(None) };
+    let mut items = vec![];
+    let out = Rc::new(RefCell::new(Vec::<u8>::new()));
+    struct Sink(Rc<RefCell<Vec<u8>>>);
+    impl std::io::Write for Sink {
+        fn write(&mut self, b: &[u8]) -> std::io::Result<usize> { self.0.borrow_mut().extend_from_slice(b); Ok(b.len()) }
+        fn flush(&mut self) -> std::io::Result<()> { Ok(()) }
+    }
+    {
+        let mut w = flussab::DeferredWriter::from_write(Sink(out.clone()));
+        loop {
+            match p.next_line() {
+                Ok(Some(l)) => { items.push(format!("{:?}", l)); l.write_into(&mut w); }
+                Ok(None) => break,
+                Err(_) => return Ok(None),
+            }
+        }
+        use std::io::Write;
+        w.flush().unwrap();
+    }
+    let v = out.borrow().clone();
+    Ok(Some((items.join(";"), v)))
+}
+
+fn rt_once(parser: &str, ty: &str, flags: &str, data: &[u8]) -> Result<Option<(String, Vec<u8>)>, String> {
+    match parser {
+        "cnf" | "wcnf" | "gcnf" => with_dimacs_type!(ty, rt_dimacs, parser, data, flags.contains('h')),
+        "aag" => with_aiger_type!(ty, rt_aag, data),
+        "aig" => with_aiger_type!(ty, rt_aig, data),
+        "btor2" => rt_btor2(data),
+        _ => Ok(None),
+    }
+}
+
+/// o_rt + setup: if the text is accepted: write the parsed value, parse that again: the value must be equal
+/// (and the written text must be accepted with a clean end); writing once more must give the same bytes.
+pub fn oracle_rt(toks: &[&str]) -> String {
+    let s = Setup::parse(toks);
+    let r = catch_unwind(AssertUnwindSafe(|| -> String {
+        let first = match rt_once(&s.parser, &s.ty, &s.flags, &s.data) { Ok(Some(x)) => x, Ok(None) => return "PASS".into(), Err(e) => return format!("FAIL {e}") };
+        let second = match rt_once(&s.parser, &s.ty, &s.flags, &first.1) {
+            Ok(Some(x)) => x,
+            Ok(None) => return format!("FAIL the writer's output for an accepted text is rejected by the parser: {:?}", String::from_utf8_lossy(&first.1)),
+            Err(e) => return format!("FAIL {e}"),
+        };
+        if first.0 != second.0 {
+            return format!("FAIL parse(write(v)) differs from v: [{}] vs [{}]", first.0, second.0);
+        }
+        if first.1 != second.1 {
+            return "FAIL writing the re-parsed value gives different bytes".into();
+        }
+        "PASS".into()
+    }));
+    r.unwrap_or_else(|p| format!("FAIL panic {}", panic_kind(&*p)))
+}
+
+/// o_b2c <kind b|d|h> <hex of string>: a BTOR2 constant built by the validating constructor is written and parsed back.
+pub fn oracle_btor2_const(toks: &[&str]) -> String {
+    use flussab_btor2::btor2::*;
+    let txt = String::from_utf8(unhex(toks[1])).unwrap();
+    let c: Option<Const> = match toks[0] {
+        "b" => BinaryConst::try_from(txt.as_str()).ok().map(Const::Binary),
+        "d" => DecimalConst::try_from(txt.as_str()).ok().map(Const::Decimal),
+        "h" => HexConst::try_from(txt.as_str()).ok().map(Const::Hex),
+        _ => panic!("bad const kind"),
+    };
+    let Some(c) = c else { return "PASS".into() };   // not in the constructor's domain
+    let line = Line::Node(Node { id: NodeId::new(2), variant: NodeVariant::Value(Value { sort: NodeId::new(1), variant: ValueVariant::Const(c) }), symbol: None, comment: None });
+    let want = format!("{:?}", line);
+    let bytes = write_to_vec(|w| line.write_into(w));
+    let mut p = flussab_btor2::Parser::from_read(&bytes[..], flussab_btor2::Config::default()).unwrap();
+    match p.next_line() {
+        Ok(Some(l)) => {
+            let got = format!("{:?}", l);
+            if got != want { return format!("FAIL constructed {want}, written {:?}, parsed back {got}", String::from_utf8_lossy(&bytes)); }
+        }
+        Ok(None) => return "FAIL written line parsed as end of input".into(),
+        Err(e) => return format!("FAIL a constant accepted by the constructor is written as {:?}, which the parser rejects: {}", String::from_utf8_lossy(&bytes), show_err_btor2(&e)),
+    }
+    match p.next_line() { Ok(None) => "PASS".into(), other => format!("FAIL trailing content after the written line: {:?}", other.map(|o| o.map(|l| format!("{:?}", l))).map_err(|e| show_err_btor2(&e))) }
+}
